@@ -1,6 +1,7 @@
 """Runs a scenario on the real pysomeip SD stack under the virtual-time loop and returns the canonical
 trace in the same shape as Model/StackIO.v prints it."""
 import ipaddress
+import logging
 
 import someip.config as C
 import someip.header as H
@@ -8,6 +9,8 @@ import someip.sd as S
 
 from . import conv, sexp
 from .vloop import TICK, VLoop
+
+logging.disable(logging.CRITICAL)  # pysomeip logs every rejected datagram; nothing is compared against log output
 
 MC = ("224.224.224.245", 30490)
 
@@ -221,11 +224,26 @@ class StackSim:
         ]
 
     def close(self):
+        """Finish every pending coroutine inside ITS OWN loop before dropping it: a suspended
+        _offer_task that is garbage-collected later runs its `finally` (StopOffer -> queue_send ->
+        call_later) on whatever loop happens to be running then, i.e. in another scenario."""
+        import asyncio
+        self.trace = []
+        asyncio.events._set_running_loop(self.loop)
         try:
-            for t in asyncio_tasks(self.loop):
-                t.cancel()
+            for _ in range(20):
+                pending = asyncio_tasks(self.loop)
+                if not pending and not self.loop._ready:
+                    break
+                for t in pending:
+                    t.cancel()
+                for _ in range(5):
+                    if self.loop._ready:
+                        self.loop._run_once()
         except Exception:  # noqa: BLE001
             pass
+        finally:
+            asyncio.events._set_running_loop(None)
         self.loop.close()
 
 
